@@ -14,7 +14,7 @@
 //	        client-only mode against a reachable simulated cluster holding a canary object.
 //	schema  values.schema.json with $ref in every URL form pointing at host documents whose
 //	        content is flipped between validations (accepting / rejecting / canary enum / absent).
-//	conc    (race build) 8 concurrent engine.Render calls on one chart object and 8 concurrent
+//	conc    (race build) 8 concurrent ToRenderValues+engine.Render runs on one chart object and 8 concurrent
 //	        client-only installs on separately loaded copies, compared with the sequential result.
 //	strace  a worker under `strace -f -e trace=open,openat,openat2,creat,socket,connect` brackets
 //	        every render with marker opens; Post asserts that between markers there is no
@@ -57,7 +57,7 @@ func init() {
 	core.Register(&core.Prop{
 		ID:    "C05",
 		Level: "exploration",
-		Rule: "seeded chart trees (root + 0-3 subcharts, listed/unlisted, depth <= 2; 2-7 template files per chart with 1-3 documents built from 30 template constructs; helpers with same-named defines in several charts; files/, crds/, NOTES.txt; random SubNotes/IncludeCRDs/DisableHooks/IsUpgrade) each rendered >= 20 times: base, repeats from a fresh in-memory load, engine.Render repeats on one chart object, reload from archive / shuffled archive / directory, permuted environment, changed cwd and host files; 18 reach-out probes x 2 load forms; 12 $ref spellings x 4 host-document states x 2 entry points; concurrent renders under the race detector; one strace-monitored batch. " +
+		Rule: "seeded chart trees (root + 0-3 subcharts, listed/unlisted, depth <= 2; 2-7 template files per chart with 1-3 documents built from 30 template constructs; helpers with same-named defines in several charts; files/, crds/, NOTES.txt; random SubNotes/IncludeCRDs/DisableHooks/IsUpgrade) each rendered >= 20 times: base, repeats from a fresh in-memory load, repeated dry-run installs and ToRenderValues+engine.Render repeats on ONE chart object (templates rewrite elements of default lists in place and pass a trail through .Values), reload from archive / shuffled archive / directory, permuted environment, changed cwd and host files; 18 reach-out probes x 2 load forms; 12 $ref spellings x 4 host-document states x 2 entry points; concurrent renders under the race detector; one strace-monitored batch. " +
 			"distinct_nontrivial counts distinct chart shapes (subchart listing, depth, flags, template-file / notes / crd / hook buckets, number of construct kinds) of charts with >= 2 template files and (>= 1 map-ranging construct or >= 2 notes/CRD sources), plus one key per reach-out probe and per $ref spelling.",
 		Assumptions: []string{
 			"client-only dry-run action.Install is the `helm template` code path; engine.Render is the engine entry point",
@@ -237,7 +237,7 @@ func post(a *core.Agg) string {
 	if msg := postStrace(a); msg != "" {
 		return msg
 	}
-	for _, k := range []string{"renders_compared", "reloads", "env_permutations", "cwd_permutations", "canary_probes", "reach_out_probes", "schema_validations_with_flipped_host_document", "schema_positive_controls", "concurrent_installs_compared", "concurrent_engine_renders_compared", "engine_renders_compared"} {
+	for _, k := range []string{"renders_compared", "reloads", "env_permutations", "cwd_permutations", "canary_probes", "reach_out_probes", "schema_validations_with_flipped_host_document", "schema_positive_controls", "concurrent_installs_compared", "concurrent_engine_renders_compared", "engine_renders_compared", "same_object_installs_compared"} {
 		if a.Stats[k] == 0 {
 			return "monitor counter " + k + " is zero"
 		}
